@@ -32,6 +32,8 @@ func KindOf(e *yang.Entry) string {
 		return "notification"
 	case e.Kind == yang.AnyDataEntry:
 		return "anydata"
+	case e.Kind == yang.AnyXMLEntry:
+		return "anyxml"
 	case e.ListAttr != nil:
 		return "list"
 	}
